@@ -59,6 +59,7 @@ class Ctx:
         self.unwitnessed_reason = None
         self.positive_vars = set()
         self.positive_polys = set()
+        self.nonneg_vars = set()
 
     # ---- variables ----------------------------------------------------------------
     def new_var(self, name, kind="aux", value=None, origin="") -> Poly:
@@ -104,6 +105,10 @@ class Ctx:
                 self.assumptions.append(Assumption("gt", al, tag + " (alias)"))
                 ((m_, _c),) = al.t.items()
                 self.positive_vars.add(m_[0][0])
+        if kind in ("ge", "gt") and len(p.t) == 1:
+            ((m0, cf0),) = p.t.items()
+            if len(m0) == 1 and m0[0][1] == 1 and cf0 > 0:
+                self.nonneg_vars.add(m0[0][0])
         if kind == "gt" and len(p.t) == 1:
             ((m, cf),) = p.t.items()
             if len(m) == 1 and m[0][1] == 1 and cf > 0:
